@@ -497,6 +497,34 @@ theorem C08_wrappers_otlp_api (T : Txt) (hT : TxtLaws T) (root : String) (m : Na
       (fun hm => migrate_noop_api otlp C08_api_mig_shape m _ (hfirst (Or.inr hm))
         (conf_normV otlp _ v h.1) (apiVal_normV otlp _ v h.2))
 
+
+/-! ## ids are values with a zero test: a non-zero id is always written -/
+
+/-- **Non-zero id ⇒ encoded, in both codecs.** For an id field (`TraceID`/`SpanID`/`ProfileID`, always `nullable=false`) holding
+a conforming non-empty value `b` — i.e. exactly `n` bytes, NOT all zero, wherever the non-zero byte sits (one-hot at any
+position, high half zero, low half zero) — the protobuf marshaler writes tag, length and all `n` bytes, and the JSON
+marshaler writes the hex string of all `n` bytes.  (The canonical form makes "empty" and "all zero" the same value, which is
+what `IsEmpty` must compute: any byte non-zero ⇒ not empty.) -/
+theorem C08_id_nonzero_encoded (S : Schema) (T : Txt) (f : Field) (n : Nat) (b : List Nat)
+    (hty : f.ty = .id n) (hcard : f.card = .req) (hb : b ≠ [])
+    (hc : conf S false (.slot (.one f)) (.bytes b) = true) :
+    b.length = n ∧ allZero b = false ∧
+    enc S (.slot (.one f)) (.bytes b) = tag f.num 2 ++ lenPrefixed b ∧
+    toJ S T (.slot (.one f)) (.bytes b) = .str (T.hex b) := by
+  have hty' : ∀ sub, f.ty ≠ .msg sub := by intro sub h; rw [hty] at h; cases h
+  rw [conf_slot_one] at hc
+  simp only [hcard] at hc
+  rw [conf_elem_leaf S f _ hty', hty] at hc
+  simp only [leafOk, Bool.or_eq_true, Bool.and_eq_true, beq_iff_eq, Bool.not_eq_true', List.isEmpty_iff] at hc
+  rcases hc with h0 | ⟨hl, hz⟩
+  · exact absurd h0 hb
+  · refine ⟨hl, hz, ?_, ?_⟩
+    · have : enc S (.slot (.one f)) (.bytes b) = enc S (.elem f) (.bytes b) := by
+        (conv => lhs; rw [enc]); simp [hcard]
+      rw [this, enc_elem_leaf S f _ hty', hty]; simp [wireType, leaf, isScalar]
+    · rw [toJ_slot_one]; simp only [hcard]
+      rw [toJ_elem_leaf S T f _ hty', hty]; rfl
+
 /-! ## non-vacuity: a small schema using every slot discipline, a conforming value with extreme numerics -/
 def S0 : Schema := { msgs := [
   { name := "t.Inner", slots := [.one { num := 1, go := "A", json := "a", orig := "a", ty := .u64 }], jsonKeys := ["a"] },
